@@ -19,7 +19,7 @@ use syn::visit_mut::VisitMut;
 use syn::*;
 
 pub struct Inliner<'a> {
-    pub file: &'a File,
+    pub files: Vec<&'a File>, // the function's own file first, then the unit's other sources
     pub known: &'a BTreeSet<String>,
     pub known_typed: &'a BTreeSet<String>,
     pub directive_words: &'a BTreeSet<String>,
@@ -166,7 +166,8 @@ impl<'a> Inliner<'a> {
             for it in items {
                 match it {
                     Item::Fn(f) if matches!(kind, Kind::Free) && f.sig.ident == name && attrs_cfg_pub(&f.attrs) => out.push((f.sig.clone(), (*f.block).clone(), None, vec![])),
-                    Item::Impl(im) if im.trait_.is_none() && attrs_cfg_pub(&im.attrs) && !matches!(kind, Kind::Free) => {
+                    // inherent impls; a trait impl only for `Type::name(..)` paths (e.g. `T::default()` of a hand-written `Default`)
+                    Item::Impl(im) if (im.trait_.is_none() || (!method && matches!(kind, Kind::Assoc(_)))) && attrs_cfg_pub(&im.attrs) && !matches!(kind, Kind::Free) => {
                         let tn = type_last_ident_pub(&im.self_ty);
                         if let Kind::Assoc(t) = kind {
                             if tn.as_deref() != Some(t.as_str()) {
@@ -191,13 +192,18 @@ impl<'a> Inliner<'a> {
                 }
             }
         }
-        let mut out = vec![];
-        walk(&self.file.items, name, kind, method, &mut out);
-        if out.len() == 1 {
-            out.pop()
-        } else {
-            None
+        // the function's own file decides; the other sources of the unit are searched only if it has no candidate
+        for f in self.files.iter() {
+            let mut out = vec![];
+            walk(&f.items, name, kind, method, &mut out);
+            if out.len() == 1 {
+                return out.pop();
+            }
+            if out.len() > 1 {
+                return None;
+            }
         }
+        None
     }
 
     /// the replacement expression for a call of `name` with `args`, or None
@@ -207,13 +213,27 @@ impl<'a> Inliner<'a> {
         }
         let method = !matches!(recv, Recv::None);
         let (sig, mut block, helper_ty, impl_generics) = self.lookup(name, &kind, method)?;
-        let mentions_generic = |tt: &str| tt.split(|c: char| !(c.is_alphanumeric() || c == '_')).any(|w| impl_generics.iter().any(|g| g == w));
+        // a method of the caller's own impl block shares its generic parameters: types may be written as they are
+        let same_impl = matches!(recv, Recv::SelfSame);
+        let mentions_generic = |tt: &str| !same_impl && tt.split(|c: char| !(c.is_alphanumeric() || c == '_')).any(|w| impl_generics.iter().any(|g| g == w));
         if sig.asyncness.is_some() != awaited {
             return None;
         }
+        crate::DesugarLetElse.visit_block_mut(&mut block);
         if has_early_exit(&block) {
-            self.notes.push(format!("helper `{}` has `return` / `?`: not inlined", name));
-            return None;
+            // early exits become nesting where the shape allows it
+            let option = matches!(&sig.output, ReturnType::Type(_, t) if type_last_ident_pub(t).as_deref() == Some("Option"));
+            let mut ee = ExitElim { option, ctr: 0 };
+            match ee.nest(block.stmts.clone()) {
+                Some(st) if !has_early_exit(&Block { brace_token: Default::default(), stmts: st.clone() }) => {
+                    block.stmts = st;
+                    self.notes.push(format!("helper `{}`: early exits rewritten as nesting", name));
+                }
+                _ => {
+                    self.notes.push(format!("helper `{}` has `return` / `?` in a position that cannot be nested: not inlined", name));
+                    return None;
+                }
+            }
         }
         let mut params: Vec<(String, bool, Type)> = vec![];
         for inp in sig.inputs.iter() {
@@ -309,7 +329,8 @@ impl<'a> Inliner<'a> {
                     ss.visit_type_mut(&mut t2);
                 }
                 let tt = t2.to_token_stream().to_string();
-                if tt.contains("impl ") || tt.contains('\'') || mentions_generic(&tt) || !sig.generics.params.is_empty() || tt.split(|c: char| !(c.is_alphanumeric() || c == '_')).any(|w| w == "Self") {
+                let bare_generic_self = !same_impl && !impl_generics.is_empty() && helper_ty.as_ref().map(|h| tt.split(|c: char| !(c.is_alphanumeric() || c == '_')).any(|w| w == h)).unwrap_or(false);
+                if tt.contains("impl ") || tt.contains('\'') || mentions_generic(&tt) || bare_generic_self || !sig.generics.params.is_empty() || tt.split(|c: char| !(c.is_alphanumeric() || c == '_')).any(|w| w == "Self") {
                     None
                 } else {
                     Some(t2)
@@ -317,6 +338,16 @@ impl<'a> Inliner<'a> {
             }
             ReturnType::Default => None,
         };
+        // a helper that is one expression (after substitution of its parameters) stays one expression: the extractor's rules for
+        // `if let Some(p) = w.upgrade()`, lock temporaries etc. see it as if it had been written in place
+        if prelude.is_empty() && stmts.len() == 1 {
+            if let Stmt::Expr(e1, None) = &stmts[0] {
+                if !matches!(e1, Expr::Block(_) | Expr::If(_) | Expr::Match(_) | Expr::Loop(_) | Expr::While(_) | Expr::ForLoop(_)) {
+                    let e1 = e1.clone();
+                    return Some(parse_quote!((#e1)));
+                }
+            }
+        }
         let e: Expr = if prelude.is_empty() && ret_annot.is_none() {
             parse_quote!({ #(#stmts)* })
         } else {
@@ -457,7 +488,65 @@ impl SubstParam {
         matches!(e, Expr::Path(p) if p.qself.is_none() && p.path.is_ident(&self.name))
     }
 }
+fn pat_binds(p: &Pat, name: &str) -> bool {
+    struct V<'n>(&'n str, bool);
+    impl<'ast, 'n> syn::visit::Visit<'ast> for V<'n> {
+        fn visit_pat_ident(&mut self, p: &'ast PatIdent) {
+            if p.ident == self.0 {
+                self.1 = true;
+            }
+            syn::visit::visit_pat_ident(self, p);
+        }
+    }
+    let mut v = V(name, false);
+    syn::visit::Visit::visit_pat(&mut v, p);
+    v.1
+}
+
 impl VisitMut for SubstParam {
+    // shadowing: where the name is bound again, it no longer means the parameter
+    fn visit_block_mut(&mut self, b: &mut Block) {
+        for st in b.stmts.iter_mut() {
+            if let Stmt::Local(l) = st {
+                if let Some(init) = &mut l.init {
+                    self.visit_expr_mut(&mut init.expr);
+                    if let Some((_, d)) = &mut init.diverge {
+                        self.visit_expr_mut(d);
+                    }
+                }
+                if pat_binds(&l.pat, &self.name) {
+                    return;
+                }
+                continue;
+            }
+            self.visit_stmt_mut(st);
+        }
+    }
+    fn visit_arm_mut(&mut self, a: &mut Arm) {
+        if pat_binds(&a.pat, &self.name) {
+            return;
+        }
+        syn::visit_mut::visit_arm_mut(self, a);
+    }
+    fn visit_expr_closure_mut(&mut self, c: &mut ExprClosure) {
+        if c.inputs.iter().any(|p| pat_binds(p, &self.name)) {
+            return;
+        }
+        syn::visit_mut::visit_expr_closure_mut(self, c);
+    }
+    fn visit_expr_if_mut(&mut self, i: &mut ExprIf) {
+        if let Expr::Let(l) = &mut *i.cond {
+            self.visit_expr_mut(&mut l.expr);
+            if !pat_binds(&l.pat, &self.name) {
+                self.visit_block_mut(&mut i.then_branch);
+            }
+            if let Some((_, e)) = &mut i.else_branch {
+                self.visit_expr_mut(e);
+            }
+            return;
+        }
+        syn::visit_mut::visit_expr_if_mut(self, i);
+    }
     fn visit_expr_mut(&mut self, e: &mut Expr) {
         match e {
             Expr::Field(f) if self.is_me(&f.base) => {
@@ -578,4 +667,348 @@ impl<'m> VisitMut for HygieneRename<'m> {
         m.tokens = self.tokens(m.tokens.clone());
     }
     fn visit_item_mut(&mut self, _: &mut Item) {}
+}
+
+// ---------------------------------------------------------------- early exits of a helper body
+//
+// A helper can only stand in place of its call if its body is an expression. `return X` and `E?` are therefore rewritten
+// into nesting (no code is dropped; code after an `if` that may fall through is duplicated into its branches):
+//     let p = E?; REST            =>  match E { Ok(p) => { REST }, Err(e) => <the error the `?` returns> }
+//     if c { ..; return X; } REST =>  if c { ..; X } else { REST }
+//     let p = match S { A => v, B => return X }; REST
+//                                 =>  match S { A => { let p = v; REST }, B => X }
+//     return X;                   =>  X
+// `E?` nested in an expression is hoisted when everything evaluated before it is pure (places, literals). Early exits inside
+// loops, closures being fine, or in any position not listed make the helper "not inlinable" (undecided, no alarm).
+// The error value of `?` is written `__vx_tryerr!(e)`; the elaboration expands it exactly as it expands `?` in the caller.
+
+pub struct ExitElim {
+    pub option: bool,
+    pub ctr: usize,
+}
+
+fn expr_has_exit(e: &Expr) -> bool {
+    struct V(bool);
+    impl<'ast> syn::visit::Visit<'ast> for V {
+        fn visit_expr_return(&mut self, _: &'ast ExprReturn) {
+            self.0 = true;
+        }
+        fn visit_expr_try(&mut self, _: &'ast ExprTry) {
+            self.0 = true;
+        }
+        fn visit_expr_closure(&mut self, _: &'ast ExprClosure) {}
+        fn visit_expr_async(&mut self, _: &'ast ExprAsync) {}
+        fn visit_item(&mut self, _: &'ast Item) {}
+    }
+    let mut v = V(false);
+    syn::visit::Visit::visit_expr(&mut v, e);
+    v.0
+}
+
+fn stmt_has_exit(s: &Stmt) -> bool {
+    match s {
+        Stmt::Local(l) => l.init.as_ref().map(|i| expr_has_exit(&i.expr) || i.diverge.as_ref().map(|(_, d)| expr_has_exit(d)).unwrap_or(false)).unwrap_or(false),
+        Stmt::Expr(e, _) => expr_has_exit(e),
+        Stmt::Macro(_) => false,
+        Stmt::Item(_) => false,
+    }
+}
+
+fn stmts_always_exit(b: &[Stmt]) -> bool {
+    match b.last() {
+        Some(Stmt::Expr(e, _)) => expr_always_exits(e),
+        _ => false,
+    }
+}
+
+fn expr_always_exits(e: &Expr) -> bool {
+    match e {
+        Expr::Return(_) => true,
+        Expr::Paren(p) => expr_always_exits(&p.expr),
+        Expr::Block(b) => stmts_always_exit(&b.block.stmts),
+        Expr::If(i) => stmts_always_exit(&i.then_branch.stmts) && i.else_branch.as_ref().map(|(_, e)| expr_always_exits(e)).unwrap_or(false),
+        Expr::Match(m) => !m.arms.is_empty() && m.arms.iter().all(|a| expr_always_exits(&a.body)),
+        _ => false,
+    }
+}
+
+/// nothing observable happens when this is evaluated (so an `E?` to its right may be evaluated before it)
+fn pure_expr(e: &Expr) -> bool {
+    match e {
+        Expr::Path(_) | Expr::Lit(_) => true,
+        Expr::Field(f) => pure_expr(&f.base),
+        Expr::Paren(p) => pure_expr(&p.expr),
+        Expr::Reference(r) => pure_expr(&r.expr),
+        Expr::Unary(u) => pure_expr(&u.expr),
+        Expr::Cast(c) => pure_expr(&c.expr),
+        Expr::Binary(b) => pure_expr(&b.left) && pure_expr(&b.right),
+        _ => false,
+    }
+}
+
+/// take the first-evaluated `E?` out of `e` (replacing it by `repl`) and return E
+fn take_head_try(e: &mut Expr, repl: &Expr) -> Option<Expr> {
+    fn seq<'x>(parts: Vec<&'x mut Expr>, repl: &Expr) -> Option<Expr> {
+        for p in parts {
+            if let Some(x) = take_head_try(p, repl) {
+                return Some(x);
+            }
+            if expr_has_exit(p) || !pure_expr(p) {
+                return None;
+            }
+        }
+        None
+    }
+    match e {
+        Expr::Try(t) => {
+            if let Some(x) = take_head_try(&mut t.expr, repl) {
+                return Some(x);
+            }
+            if expr_has_exit(&t.expr) {
+                return None;
+            }
+            let inner = (*t.expr).clone();
+            *e = repl.clone();
+            Some(inner)
+        }
+        Expr::MethodCall(m) => {
+            let mut parts: Vec<&mut Expr> = vec![&mut *m.receiver];
+            parts.extend(m.args.iter_mut());
+            seq(parts, repl)
+        }
+        Expr::Call(c) => {
+            if !matches!(&*c.func, Expr::Path(_)) {
+                return None;
+            }
+            seq(c.args.iter_mut().collect(), repl)
+        }
+        Expr::Field(f) => take_head_try(&mut f.base, repl),
+        Expr::Paren(p) => take_head_try(&mut p.expr, repl),
+        Expr::Reference(r) => take_head_try(&mut r.expr, repl),
+        Expr::Unary(u) => take_head_try(&mut u.expr, repl),
+        Expr::Cast(c) => take_head_try(&mut c.expr, repl),
+        Expr::Await(a) => take_head_try(&mut a.base, repl),
+        Expr::Binary(b) => seq(vec![&mut *b.left, &mut *b.right], repl),
+        Expr::Tuple(t) => seq(t.elems.iter_mut().collect(), repl),
+        Expr::Struct(s) if s.rest.is_none() => seq(s.fields.iter_mut().map(|f| &mut f.expr).collect(), repl),
+        Expr::Match(m) => take_head_try(&mut m.expr, repl),
+        Expr::If(i) => match &mut *i.cond {
+            Expr::Let(l) => take_head_try(&mut l.expr, repl),
+            c => take_head_try(c, repl),
+        },
+        _ => None,
+    }
+}
+
+fn top_level_lets(b: &[Stmt], out: &mut BTreeSet<String>) {
+    for s in b {
+        if let Stmt::Local(l) = s {
+            pat_names(&l.pat, out);
+        }
+    }
+}
+
+fn pat_names(p: &Pat, out: &mut BTreeSet<String>) {
+    struct V<'o>(&'o mut BTreeSet<String>);
+    impl<'ast, 'o> syn::visit::Visit<'ast> for V<'o> {
+        fn visit_pat_ident(&mut self, p: &'ast PatIdent) {
+            self.0.insert(p.ident.to_string());
+            syn::visit::visit_pat_ident(self, p);
+        }
+    }
+    let mut v = V(out);
+    syn::visit::Visit::visit_pat(&mut v, p);
+}
+
+fn idents_of(stmts: &[Stmt]) -> BTreeSet<String> {
+    let mut out = BTreeSet::new();
+    fn walk(ts: TokenStream, out: &mut BTreeSet<String>) {
+        for tt in ts {
+            match tt {
+                TokenTree::Ident(i) => {
+                    out.insert(i.to_string());
+                }
+                TokenTree::Group(g) => walk(g.stream(), out),
+                _ => {}
+            }
+        }
+    }
+    for s in stmts {
+        walk(s.to_token_stream(), &mut out);
+    }
+    out
+}
+
+impl ExitElim {
+    fn fresh(&mut self, base: &str) -> Ident {
+        self.ctr += 1;
+        Ident::new(&format!("__vx_{}{}", base, self.ctr), proc_macro2::Span::call_site())
+    }
+
+    /// `match E { Ok(PAT) => { BODY }, Err(e) => <error of ?> }` (Option: `Some(PAT)` / `None => None`)
+    fn try_match(&mut self, scrutinee: Expr, pat: Pat, body: Vec<Stmt>) -> Expr {
+        if self.option {
+            parse_quote!(match #scrutinee { Some(#pat) => { #(#body)* } None => None, })
+        } else {
+            let e = self.fresh("e");
+            parse_quote!(match #scrutinee { Ok(#pat) => { #(#body)* } Err(#e) => __vx_tryerr!(#e), })
+        }
+    }
+
+    /// a statement list whose value is what the function returns; None = a shape outside the supported ones
+    pub fn nest(&mut self, stmts: Vec<Stmt>) -> Option<Vec<Stmt>> {
+        let mut out = vec![];
+        let mut it: std::collections::VecDeque<Stmt> = stmts.into_iter().collect();
+        while let Some(s) = it.pop_front() {
+            if !stmt_has_exit(&s) {
+                out.push(s);
+                continue;
+            }
+            let rest: Vec<Stmt> = it.into_iter().collect();
+            let tail = self.split(s, rest)?;
+            out.push(Stmt::Expr(tail, None));
+            return Some(out);
+        }
+        Some(out)
+    }
+
+    /// the value of `s; rest` as one expression
+    fn split(&mut self, s: Stmt, rest: Vec<Stmt>) -> Option<Expr> {
+        match s {
+            Stmt::Local(mut l) => {
+                let init = l.init.take()?;
+                if init.diverge.is_some() {
+                    return None;
+                }
+                let mut e = *init.expr;
+                let ctl = matches!(&e, Expr::If(i) if !expr_has_exit(&i.cond)) || matches!(&e, Expr::Match(m) if !expr_has_exit(&m.expr)) || matches!(&e, Expr::Block(b) if b.label.is_none());
+                if ctl {
+                    return self.join(e, Some(l.pat.clone()), false, rest);
+                }
+                let q = self.fresh("q");
+                let inner = take_head_try(&mut e, &parse_quote!(#q))?;
+                l.init = Some(LocalInit { eq_token: init.eq_token, expr: Box::new(e), diverge: None });
+                let mut body = vec![Stmt::Local(l)];
+                body.extend(rest);
+                let body = self.nest(body)?;
+                Some(self.try_match(inner, parse_quote!(#q), body))
+            }
+            Stmt::Expr(e, semi) => {
+                if let Expr::Return(r) = e {
+                    return Some(match r.expr {
+                        Some(x) => {
+                            if expr_has_exit(&x) {
+                                // `return f(a?)`: the value first
+                                let v = self.nest(vec![Stmt::Expr(*x, None)])?;
+                                parse_quote!({ #(#v)* })
+                            } else {
+                                *x
+                            }
+                        }
+                        None => parse_quote!(()),
+                    });
+                }
+                let ctl = matches!(&e, Expr::If(i) if !expr_has_exit(&i.cond)) || matches!(&e, Expr::Match(m) if !expr_has_exit(&m.expr)) || matches!(&e, Expr::Block(b) if b.label.is_none());
+                if ctl {
+                    let value_pos = semi.is_none() && rest.is_empty();
+                    return self.join(e, None, value_pos, rest);
+                }
+                let mut e = e;
+                let q = self.fresh("q");
+                let inner = take_head_try(&mut e, &parse_quote!(#q))?;
+                let mut body = vec![Stmt::Expr(e, semi)];
+                body.extend(rest);
+                let body = self.nest(body)?;
+                Some(self.try_match(inner, parse_quote!(#q), body))
+            }
+            _ => None,
+        }
+    }
+
+    /// one branch of a control-flow statement followed by `rest`
+    fn branch(&mut self, mut body: Vec<Stmt>, extra_bound: &BTreeSet<String>, bind: &Option<Pat>, value_pos: bool, rest: &[Stmt]) -> Option<Vec<Stmt>> {
+        if stmts_always_exit(&body) {
+            return self.nest(body);
+        }
+        if let Some(pat) = bind {
+            let v: Expr = match body.last() {
+                Some(Stmt::Expr(_, None)) => match body.pop() {
+                    Some(Stmt::Expr(e, None)) => e,
+                    _ => unreachable!(),
+                },
+                _ => parse_quote!(()),
+            };
+            body.push(parse_quote!(let #pat = #v;));
+        } else if !value_pos {
+            if let Some(Stmt::Expr(e, None)) = body.last().cloned() {
+                body.pop();
+                body.push(Stmt::Expr(e, Some(Default::default())));
+            }
+        }
+        if !rest.is_empty() {
+            // the continuation moves into the branch: nothing the branch binds may capture a name the continuation uses
+            let mut bound = extra_bound.clone();
+            let upto = if bind.is_some() { body.len() - 1 } else { body.len() };
+            top_level_lets(&body[..upto], &mut bound);
+            let used = idents_of(rest);
+            if bound.iter().any(|b| used.contains(b)) {
+                return None;
+            }
+            body.extend(rest.iter().cloned());
+        }
+        self.nest(body)
+    }
+
+    fn join(&mut self, e: Expr, bind: Option<Pat>, value_pos: bool, rest: Vec<Stmt>) -> Option<Expr> {
+        let none = BTreeSet::new();
+        match e {
+            Expr::Block(b) => {
+                let body = self.branch(b.block.stmts, &none, &bind, value_pos, &rest)?;
+                Some(parse_quote!({ #(#body)* }))
+            }
+            Expr::If(i) => {
+                let mut bound = BTreeSet::new();
+                if let Expr::Let(l) = &*i.cond {
+                    pat_names(&l.pat, &mut bound);
+                }
+                let cond = (*i.cond).clone();
+                let then_b = self.branch(i.then_branch.stmts, &bound, &bind, value_pos, &rest)?;
+                let else_stmts: Vec<Stmt> = match i.else_branch {
+                    None => vec![],
+                    Some((_, eb)) => match *eb {
+                        Expr::Block(b) => b.block.stmts,
+                        other => vec![Stmt::Expr(other, None)],
+                    },
+                };
+                let else_b = self.branch(else_stmts, &none, &bind, value_pos, &rest)?;
+                Some(parse_quote!(if #cond { #(#then_b)* } else { #(#else_b)* }))
+            }
+            Expr::Match(m) => {
+                let scrut = (*m.expr).clone();
+                let mut arms: Vec<Arm> = vec![];
+                for a in m.arms.into_iter() {
+                    if let Some((_, g)) = &a.guard {
+                        if expr_has_exit(g) {
+                            return None;
+                        }
+                    }
+                    let mut bound = BTreeSet::new();
+                    pat_names(&a.pat, &mut bound);
+                    let body_stmts: Vec<Stmt> = match *a.body {
+                        Expr::Block(b) if b.label.is_none() => b.block.stmts,
+                        other => vec![Stmt::Expr(other, None)],
+                    };
+                    let body = self.branch(body_stmts, &bound, &bind, value_pos, &rest)?;
+                    let pat = a.pat;
+                    let arm: Arm = match a.guard {
+                        Some((_, g)) => parse_quote!(#pat if #g => { #(#body)* }),
+                        None => parse_quote!(#pat => { #(#body)* }),
+                    };
+                    arms.push(arm);
+                }
+                Some(parse_quote!(match #scrut { #(#arms)* }))
+            }
+            _ => None,
+        }
+    }
 }
